@@ -208,12 +208,35 @@ func c06Exec(c *c06Case, tag string, only int, compiles []bool, kinds []map[stri
 				return res
 			default:
 			}
+			if err != nil && !running[p] && !res.loadedOK[p] {
+				// a program that has never been loaded and was not loaded now either
+				// has nothing in the store
+				left := ""
+				_ = e.store.Range(func(m *metrics.Metric) error {
+					if m.Program == name(p) {
+						left = m.Name
+					}
+					return nil
+				})
+				if left != "" {
+					res.fail = vstat.Failf("failed-load-left-metrics-behind", "step %d: loading program %d failed (%v), yet its metric %s is in the store", si, p, err, left)
+					return res
+				}
+			}
+			_, selfClash := kinds[p]["\x00selfclash"]
 			switch {
 			case !compiles[p]:
 				if err == nil {
 					res.fail = vstat.Failf("uncompilable-program-loaded", "step %d: program %d does not compile on its own but CompileAndRun returned nil", si, p)
 					return res
 				}
+			case selfClash:
+				// the program exports one name with two kinds: it cannot be registered
+				if err == nil {
+					res.fail = vstat.Failf("self-clashing-program-loaded", "step %d: program %d exports one name with two kinds but CompileAndRun returned nil", si, p)
+					return res
+				}
+				res.refused[p] = "exports one name with two kinds"
 			case err != nil && conflict != "":
 				res.refused[p] = conflict
 			case err != nil:
@@ -274,6 +297,9 @@ func runC06(c c06Case) (*vstat.Failure, c06Info) {
 				compiles[i] = true
 				for _, m := range obj.Metrics {
 					if !m.Hidden {
+						if k, ok := kinds[i][m.Name]; ok && k != m.Kind {
+							kinds[i]["\x00selfclash"] = m.Kind
+						}
 						kinds[i][m.Name] = m.Kind
 					}
 				}
@@ -421,6 +447,15 @@ func TestC06(t *testing.T) {
 				extraText = []string{"at 86400 x", "at 1000000 y", "at 31536000 z"}
 				extraLines = true
 				st.Class("with-clock-setting-and-clock-reading-pair")
+			case 6:
+				// a program that exports one name with two kinds (it cannot be loaded,
+				// and must leave nothing behind) before one that uses the name properly
+				c.Extra = []string{
+					"counter inflight\ngauge inflight_now as \"inflight\"\n/^word (?P<w>\\w+)$/ {\n  inflight++\n  inflight_now = len($w)\n}\n",
+					"gauge inflight\ncounter q_lines\n/^word (?P<w>\\w+)$/ {\n  inflight = len($w)\n  q_lines++\n}\n",
+				}
+				extraLines = true
+				st.Class("with-a-program-exporting-one-name-with-two-kinds")
 			case 4, 5:
 				// a name one program exports and another keeps hidden, with another
 				// kind: the hidden one never reaches the store, so they do not clash
